@@ -34,7 +34,7 @@ CHECKS["C04"] = {
                      "varlink::Call::is_oneway", "varlink::Call::wants_more"],
           symbolic="more/oneway/upgrade in {absent,false,true}, Call.continues, reply path selector (8 paths)",
           bounds="all 27 flag combinations x continues x 8 library reply paths; one reply per call; unwind 12",
-          stubs=STUB_SER + STUB_FMT),
+          stubs=STUB_SER + STUB_FMT, witness="search"),
     ],
     "assumptions": [
         "writer is an in-memory recorder whose write_all/flush never fail",
@@ -189,9 +189,10 @@ CHECKS["C17"] = {
               "description unset or <= 3 bytes"),
         c17_h("c17_stringset_deserialize", "<varlink::StringHashSet as Deserialize>::deserialize (hand-written visitor)",
               "object with any subset of the members a, b, each an empty object; strict MapAccess protocol",
-              timeout=(1800, 3600), extra_stubs=HASH_STUBS),
+              timeout=(900, 3600), extra_stubs=["std::collections::HashSet::insert -> ghost counter recording the inserted "
+                                               "element (hashbrown's insert is not the subject)"]),
         c17_h("c17_stringset_serialize", "<varlink::StringHashSet as Serialize>::serialize (hand-written)",
-              "set with 0 or 1 element", timeout=(1800, 3600), extra_stubs=HASH_STUBS),
+              "set with 0 or 1 element", tiers=("thorough",), timeout=(3600, 7200), extra_stubs=HASH_STUBS),
     ],
     "assumptions": [
         "the three deserialization entry points differ only in how strictly they enforce serde's MapAccess protocol; "
@@ -210,7 +211,7 @@ CHECKS["C05"] = {
           symbolic="more/oneway/upgrade in {absent,false,true}; script of 0..3 ops over {set_continues(true), "
                    "set_continues(false), reply, reply_error}",
           bounds="all 27 flag combinations x all 4^3 scripts of length <= 3; unwind 12",
-          stubs=STUB_SER + STUB_FMT),
+          stubs=STUB_SER + STUB_FMT, witness="search"),
     ],
     "assumptions": [
         "server half only: the client iterator (MethodCall::more / next / recv) reads through "
@@ -317,7 +318,7 @@ CHECKS["C12"] = {
 }
 
 C11_STUBS = ["std::hash::RandomState::new -> fixed keys",
-             "<DefaultHasher as Hasher>::{write,write_str,finish} -> constant hash",
+             "std::collections::HashSet::insert (IDL.error) -> ghost counter of reported definition errors",
              "alloc::fmt::format -> String::new() (so the error TEXT is not inspected)"]
 
 
@@ -325,7 +326,10 @@ def c11_h(name, kinds, tiers):
     return H(name, mod="verif_parser::c11", package="varlink_parser", tiers=tiers, timeout=(1500, 3600),
              functions=["varlink_parser::IDL::from_token"],
              symbolic="the name of each member, drawn from a pool of two",
-             bounds="member kinds %s (constants of the instance); unwind 6" % kinds, stubs=C11_STUBS)
+             bounds="member kinds %s (constants of the instance); unwind 6" % kinds, stubs=C11_STUBS,
+             # the members carry empty argument lists; the recursive drop glue of the AST types is cut at depth 1
+             loop_rules=[("rec:drop_glue::<.*(VTypeExt|VType|VStruct|VEnum|Argument)", 1),
+                         (r"drop_glue::<\[Argument", 2), ("=memcmp.0", 8)])
 
 
 CHECKS["C11"] = {
@@ -372,5 +376,24 @@ CHECKS["C02"] = {
         "real 8 KiB capacity is a constant of std",
         "the listen() worker discards the tail handle() returns after an upgrade (server.rs: Ok((_, i))); listen() cannot "
         "be compiled by Kani 0.68 (DESIGN P15), so that call site is outside the check",
+    ],
+}
+
+CHECKS["C06"] = {
+    "design_ref": "3/C06",
+    "harnesses": [
+        handle_h("c06_k1_malformed", 1, "[malformed]", ("quick", "thorough")),
+        handle_h("c06_k2_second_malformed", 2, "[dispatched, malformed]", ("quick", "thorough")),
+        handle_h("c06_k2_first_malformed", 2, "[malformed, dispatched]", ("quick", "thorough")),
+        handle_h("c01_k3_ddd_f2", 3, "[dispatched, dispatched, malformed]", ("thorough",)),
+    ],
+    "assumptions": CHECKS["C01"]["assumptions"] + [
+        "reduced claim: the containment logic of handle() around the parser - a message the JSON parser rejects is neither "
+        "dispatched nor answered, everything before it is answered, handle() returns Err so that the caller closes the "
+        "connection. That serde_json itself returns Err (rather than panicking or overflowing the stack) on hostile bytes "
+        "is third-party code CBMC does not finish even on concrete input (DESIGN P1, P11); other connections being "
+        "unaffected is the listen() worker (threads, sockets; not compilable by Kani 0.68, DESIGN P15)",
+        "the three 'P:c06.*' assertions sit in the harness models of rfind / dispatch / reply_interface_not_found: the first "
+        "things handle() does with a parsed request",
     ],
 }
